@@ -152,6 +152,11 @@ func Tok(v any) string {
 			return "0"
 		}
 		return s[1:]
+	case reflect.Func:
+		if rv.IsNil() {
+			return "0"
+		}
+		return "?"
 	case reflect.Ptr, reflect.Map, reflect.Chan, reflect.Slice:
 		if rv.IsNil() {
 			return "0"
@@ -218,7 +223,11 @@ KINDS = {
     "any": ("any", "rtlib.MkAny(%d)"), "err": ("error", "rtlib.MkErr(%d)"),
     "LN": ("LN", "LN(rtlib.MkInt(%d))"),
     "T": ("T", "rtlib.MkStr(%d)"), "S": ("S", "rtlib.MkInt(%d)"),
+    # named func types whose de-capitalised names are predeclared identifiers the generated body
+    # uses (parameters only, always the nil func: token 0)
+    "Panic": ("Panic", "Panic(nil) /*%d*/"), "Nil": ("Nil", "Nil(nil) /*%d*/"), "Append": ("Append", "Append(nil) /*%d*/"),
 }
+FUNC_KINDS = ("Panic", "Nil", "Append")
 PNAMES = ["a", "b", "ctx", "id", "url", "s", "n", "err", "v", "key", "val", "Http", "x1", "sOut", "sync", "in"]
 MNAMES = ["Get", "Set", "Do", "Run", "Close", "Put", "List", "Find", "Id", "Url", "refresh", "Api", "get", "ID"]
 
@@ -233,7 +242,8 @@ def gen_iface(rnd, idx):
         ps = []
         names = rnd.sample(PNAMES, np_)
         for i in range(np_):
-            ps.append({"name": names[i] if named else "", "kind": rnd.choice(kinds)})
+            ps.append({"name": names[i] if named else "",
+                       "kind": rnd.choice(FUNC_KINDS) if rnd.random() < 0.08 else rnd.choice(kinds)})
         variadic = None
         if np_ and rnd.random() < 0.35:
             variadic = rnd.choice(["int", "any"])
@@ -241,6 +251,11 @@ def gen_iface(rnd, idx):
         nr = rnd.choice([0, 1, 1, 2, 3])
         rs = [{"kind": rnd.choice(kinds)} for _ in range(nr)]
         methods.append({"name": name, "params": ps, "results": rs, "variadic": variadic})
+    # a hook whose single unnamed parameter gets its name from a type called like a builtin the
+    # generated body uses; its function field is left nil and the script calls it (C07, C12)
+    if rnd.random() < 0.3:
+        methods.append({"name": "Hook", "params": [{"name": "", "kind": rnd.choice(FUNC_KINDS)}], "results": [],
+                        "variadic": None, "keep_nil": True})
     return {"name": "I%d" % idx, "generic": generic, "methods": methods}
 
 
@@ -273,7 +288,8 @@ def iface_src(pkg, it):
         if len(m["results"]) > 1:
             rs = "(" + rs + ")"
         lines.append("\t%s(%s) %s" % (m["name"], ps, rs))
-    return ("package %s\n\ntype LN int\ntype LC interface{ ~int | ~int64 }\n\n// %s is generated.\ntype %s%s interface {\n%s\n}\n"
+    return ("package %s\n\ntype LN int\ntype LC interface{ ~int | ~int64 }\n\n"
+            "// Panic, Nil and Append are func types named like builtins.\ntype Panic func(v any)\ntype Nil func()\ntype Append func(int)\n\n// %s is generated.\ntype %s%s interface {\n%s\n}\n"
             % (pkg, it["name"], it["name"], tdecl, "\n".join(lines)))
 
 
@@ -291,7 +307,8 @@ def gen_script(rnd, it, flags, n_ops):
         c = rnd.random()
         m = rnd.choice(ms)
         if c < 0.55:
-            return ["call", m["name"]] + [fresh() if (rnd.random() < 0.9 or p["kind"] in ("vint", "vany")) else 0
+            return ["call", m["name"]] + [0 if p["kind"] in FUNC_KINDS else
+                                          fresh() if (rnd.random() < 0.9 or p["kind"] in ("vint", "vany")) else 0
                                           for p in m["params"]]
         if c < 0.85 or not flags["resets"]:
             return ["calls", m["name"]]
@@ -301,24 +318,29 @@ def gen_script(rnd, it, flags, n_ops):
 
     funcs = {}
     for m in ms:
-        if rnd.random() < (0.3 if flags["stub"] else 0.12):
+        if m.get("keep_nil") or rnd.random() < (0.3 if flags["stub"] else 0.12):
             continue  # nil function field
         nops = rnd.choice([0, 0, 1, 2])
         ops = [op(1) for _ in range(nops)]
         funcs[m["name"]] = {"ops": ops, "panic": fresh() if rnd.random() < 0.15 else None,
                             "results": [fresh() if rnd.random() < 0.85 else 0 for _ in m["results"]]}
     script = [op(0) for _ in range(n_ops)]
+    for m in ms:
+        if m.get("keep_nil"):
+            script.insert(rnd.randrange(len(script) + 1), ["call", m["name"], 0])
+            script.append(["calls", m["name"]])
     # epilogue: a snapshot that must survive a reset followed by further calls (per method, when resets exist)
     if flags["resets"]:
         for m in ms[:2]:
             def call():
-                return ["call", m["name"]] + [fresh() for _ in m["params"]]
+                return ["call", m["name"]] + [0 if p["kind"] in FUNC_KINDS else fresh() for p in m["params"]]
             script += [call(), call(), ["calls", m["name"]], rnd.choice([["reset", m["name"]], ["resetall"]]),
                        call(), ["calls", m["name"]], call(), call(), call()]
     else:
         m = ms[0]
-        script += [["call", m["name"]] + [fresh() for _ in m["params"]], ["calls", m["name"]]] + \
-                  [["call", m["name"]] + [fresh() for _ in m["params"]] for _ in range(5)] + [["calls", m["name"]]]
+        def call0():
+            return ["call", m["name"]] + [0 if p["kind"] in FUNC_KINDS else fresh() for p in m["params"]]
+        script += [call0(), ["calls", m["name"]]] + [call0() for _ in range(5)] + [["calls", m["name"]]]
     return funcs, script
 
 
@@ -452,7 +474,7 @@ def stress_src(it, mock, inst):
     L.append("\t\t\tfor {")
     L.append("\t\t\t\tselect { case <-done: return; default: }")
     for mm in it["methods"]:
-        L.append("\t\t\t\t{ a := m.%sCalls(); b := m.%sCalls(); if !withResets && (len(b) < len(a) || (len(a) > 0 && &a[0] != &b[0] && rtlib.Records(a) != rtlib.Records(b[:len(a)]))) { select { case bad <- \"snapshot of %s is not a prefix of a later one\": default: } } }" % (mm["name"], mm["name"], mm["name"]))
+        L.append("\t\t\t\t{ a := m.%sCalls(); b := m.%sCalls(); _ = rtlib.Records(a); if !withResets && (len(b) < len(a) || (len(a) > 0 && &a[0] != &b[0] && rtlib.Records(a) != rtlib.Records(b[:len(a)]))) { select { case bad <- \"snapshot of %s is not a prefix of a later one\": default: } } }" % (mm["name"], mm["name"], mm["name"]))
     L.append("\t\t\t\tif withResets {")
     for mm in it["methods"][:1]:
         L.append("\t\t\t\t\tresetOne(m)")
@@ -617,12 +639,40 @@ def _run(cdir, seed, tier, root, log):
     result = {"programs": len(good), "violations": [], "disagreements": [], "samples": [],
               "coverage": {"rt_packages": len(good), "rt_skipped": [c.get("skip") for c in cases if c.get("skip")][:5],
                            "ops_per_script": n_ops}}
+    def write_main(cs):
+        txt = "\n".join(main) + "\n"
+        for c in good:
+            if c not in cs:
+                txt = txt.replace('\t%s "%s/%s"\n' % (c["pkg"], MOD, c["pkg"]), "")
+                txt = txt.replace('\t\t{"%s", %s.Run, %s.Stress, %s},\n' % (
+                    c["pkg"], c["pkg"], c["pkg"], "true" if c["flags"]["resets"] else "false"), "")
+        open(os.path.join(root, "cmd", "main.go"), "w").write(txt)
+
     rc, o, e = build.sh(["go", "build", "-o", "rtbin", "./cmd"], cwd=root, env=pool.GOENV)
     if rc != 0:
-        # a compile error of a real moq output is a C01-class failure; report as disagreement for rt properties
-        result["disagreements"].append({"id": "rt-build", "props": ["C03", "C04", "C05", "C06", "C07", "C08"],
-                                        "what": "compiled-mock harness does not build: " + e[-1500:]})
-        return result
+        # packages whose *generated mock* does not compile: a concrete input on which moq's output is
+        # unusable – no runtime property can hold of it; they are reported and left out, the rest runs
+        bad = {}
+        for line in e.splitlines():
+            mm = re.match(r"(rt\d+)/moq_out\.go:\d+:\d+: (.*)", line.strip())
+            if mm:
+                bad.setdefault(mm.group(1), []).append(line.strip())
+        rest = [c for c in good if c["pkg"] not in bad]
+        if bad and rest:
+            for c in good:
+                if c["pkg"] in bad:
+                    result["violations"].append({
+                        "id": c["pkg"], "props": ["C03", "C04", "C05", "C06", "C07", "C08"], "flags": c["flags"],
+                        "files": {"iface.go": iface_src(c["pkg"], c["it"]), "moq_out.go": c["moq_out"]},
+                        "what": "the generated mock does not compile, so it cannot behave as the property says: " +
+                                " | ".join(bad[c["pkg"]][:3])})
+            write_main(rest)
+            good = rest
+            rc, o, e = build.sh(["go", "build", "-o", "rtbin", "./cmd"], cwd=root, env=pool.GOENV)
+        if rc != 0:
+            result["disagreements"].append({"id": "rt-build", "props": ["C03", "C04", "C05", "C06", "C07", "C08"],
+                                            "what": "compiled-mock harness does not build: " + e[-1500:]})
+            return result
     model = pool.run_driver(driver, lines)
     p = subprocess.run([os.path.join(root, "rtbin"), "seq"], capture_output=True, text=True, timeout=600)
     real = {}
